@@ -45,6 +45,9 @@ pub struct ShardSpec {
     /// the plan's first model (same bodies; files may carry a subset of the optional parts)
     #[serde(default)]
     pub overlap_first: Option<(u64, u32)>,
+    /// only records that account for no bytes: files without segments, xorbs without chunks (all byte totals zero)
+    #[serde(default)]
+    pub zero_byte_only: bool,
 }
 
 pub struct HashGen {
@@ -125,7 +128,7 @@ pub fn gen_model(spec: &ShardSpec) -> ModelShard {
     // within the bound by construction of HashGen (one generator for all record hashes)
     let mut chg = HashGen::new(spec.seed ^ 0xC4, if spec.hash_style == 2 { 1 } else { spec.hash_style });
     for _ in 0..spec.n_xorbs {
-        let n = rng.log_range(1, spec.max_chunks.max(1) as u64) as usize;
+        let n = if spec.zero_byte_only { 0 } else { rng.log_range(1, spec.max_chunks.max(1) as u64) as usize };
         let mut chunks = Vec::with_capacity(n);
         let mut pos = 0u32;
         for _ in 0..n {
@@ -155,7 +158,7 @@ pub fn gen_model(spec: &ShardSpec) -> ModelShard {
     }
     let xorb_hashes: Vec<H> = m.xorbs.keys().copied().collect();
     for _ in 0..spec.n_files {
-        let nseg = if rng.chance(1, 10) { 0 } else { rng.log_range(1, 12) as usize };
+        let nseg = if rng.chance(1, 10) || spec.zero_byte_only { 0 } else { rng.log_range(1, 12) as usize };
         let mut segs = Vec::new();
         for _ in 0..nseg {
             let (xh, nch) = if !xorb_hashes.is_empty() && rng.chance(7, 8) {
@@ -168,7 +171,15 @@ pub fn gen_model(spec: &ShardSpec) -> ModelShard {
             let b = a + 1 + rng.below((nch - a) as u64) as u32;
             let bytes = match m.xorbs.get(&xh) {
                 Some(x) => x.chunks[a as usize..b as usize].iter().map(|c| c.1).fold(0u32, |s, l| s.wrapping_add(l)),
-                None => rng.below(1 << 20) as u32,
+                // a segment of a xorb recorded elsewhere: any 32-bit size, occasionally close to the maximum (a file
+                // record may then describe more than 4 GiB)
+                None => {
+                    if rng.chance(1, 6) {
+                        u32::MAX - rng.below(1 << 20) as u32
+                    } else {
+                        rng.below(1 << 20) as u32
+                    }
+                },
             };
             segs.push(RefSegment { xorb: xh, flags: 0, bytes, start: a, end: b });
         }
